@@ -236,7 +236,13 @@ class FamilyBuilder:
         mix = self.pick_mixins()
         c = {"name": name, "mixins": mix,
              "fields": self.fields(name.lower() + "_", self.rng.randint(1, 3))}
+        if self.kn.get("union_focus"):
+            # the same Union type in several classes that treat its members differently
+            c["fields"].insert(0, {"n": name.lower() + "_u", "t": ["union", ["int"], ["date"]]})
         cfg = self.pick_cfg(bool(mix))
+        if self.kn.get("union_focus") and self.rng.random() < 0.5:
+            cfg = dict(cfg or {})
+            cfg["date"] = self.rng.choice(["slash", "ord"])
         if cfg is not None:
             c["cfg"] = cfg
         h = self.hooks()
